@@ -265,7 +265,8 @@ def r3_append_discipline(ctx):
     fb = b.calls_to(r"MethodResponse::from_batch$")
     nt = b.calls_to(r"MethodResponse::notification$")
     ie = b.calls_to(r"BatchResponseBuilder::is_empty$")
-    R.check(len(fin) == 1 and len(fb) == 1 and len(nt) == 1 and len(ie) == 1, "C02.R3", "after-loop:shape", "after the loop: is_empty / notification() / from_batch(finish())", "after-loop structure changed: finish=%d from_batch=%d notification=%d is_empty=%d" % (len(fin), len(fb), len(nt), len(ie)), "%s:%d" % (b.file, b.lo))
+    R.check(len(fin) == 1 and len(fb) == 1 and len(nt) == 1, "C02.R3", "after-loop:shape", "after the loop: notification() / from_batch(finish())", "after-loop structure changed: finish=%d from_batch=%d notification=%d" % (len(fin), len(fb), len(nt)), "%s:%d" % (b.file, b.lo))
+    R.check(len(ie) == 1, "C02.R3", "after-loop:empty-ack-only-when-empty", "the empty acknowledgement is decided by is_empty() of the reply builder", "the empty acknowledgement (no reply) is not decided by is_empty() of the reply builder (%d is_empty sites): replies that were already appended - e.g. -32600 for invalid entries next to notifications - are discarded" % len(ie), where(nt[0]) if nt else "%s:%d" % (b.file, b.lo))
     if len(ie) == 1 and len(nt) == 1 and len(fb) == 1:
         t_true = None
         for sb, arms, other in flow.switch_on(b, ie[0].dest["l"]):
@@ -285,7 +286,7 @@ def r3_append_discipline(ctx):
         for l in gn:
             for sb, arms, other in flow.switch_on(b, l):
                 tt = other if "0" in arms else arms.get("1")
-                if tt is not None and b.dominates(tt, nt[0].bb) and b.dominates(ie[0].bb, sb):
+                if tt is not None and b.dominates(tt, nt[0].bb) and b.can_reach(nx.bb, sb):
                     okg = True
         R.check(okg, "C02.R3", "after-loop:empty-ack-needs-notification", "an empty array is not acknowledged as notifications-only", "the empty acknowledgement does not require that a notification was seen (an empty array would get no InvalidRequest reply)", where(nt[0]))
         lv = tr.origins(b, fb[0].args[0])
